@@ -80,6 +80,32 @@ type vSelf struct {
 	Next *vSelf
 }
 
+// cyclic typed data: the cycle passes through a by-value struct, a slice, a map, an interface
+type vOwner struct {
+	Name    string   `json:"name"`
+	Profile vProfile `json:"profile"`
+}
+
+type vProfile struct {
+	Bio   string  `json:"bio"`
+	Owner *vOwner `json:"owner"`
+}
+
+type vTree struct {
+	Name string            `json:"name"`
+	Kids []*vTree          `json:"kids"`
+	M    map[string]*vTree `json:"m"`
+	Any  any               `json:"any"`
+	Next *vTree            `json:"next"`
+	A    string            `json:"a"`
+}
+
+// a promoted field through a nil embedded pointer
+type vEmbPtr struct {
+	*vInner
+	Extra string
+}
+
 type vStringer struct{ s string }
 
 func (v vStringer) String() string { return "stringer:" + v.s }
@@ -109,7 +135,21 @@ var wrongValues = func() []wrongVal {
 	var nilFunc func()
 	var nilIface error
 	ch := make(chan int)
+	owner := &vOwner{Name: "ann"}
+	owner.Profile = vProfile{Bio: "b", Owner: owner}
+	tslice := &vTree{Name: "ts"}
+	tslice.Kids = []*vTree{tslice}
+	tmap := &vTree{Name: "tm"}
+	tmap.M = map[string]*vTree{"a": tmap}
+	tany := &vTree{Name: "ta"}
+	tany.Any = tany
+	ta, tb := &vTree{Name: "c2a"}, &vTree{Name: "c2b"}
+	ta.Next, tb.Next = tb, ta
+	tanyval := &vTree{Name: "tv"}
+	tanyval.Any = []any{map[string]any{"p": tanyval}}
 	return []wrongVal{
+		{"cyc-byvalue", owner}, {"cyc-byvalue-val", *owner}, {"cyc-slice", tslice}, {"cyc-map", tmap}, {"cyc-any", tany}, {"cyc-2", ta}, {"cyc-any-nested", tanyval},
+		{"nil-embedded-ptr", vEmbPtr{Extra: "e"}}, {"nil-embedded-ptr-ptr", &vEmbPtr{Extra: "e"}},
 		{"nil", nil}, {"true", true}, {"int", 7}, {"int8", int8(-8)}, {"uint64", uint64(1 << 63)}, {"float", 2.5}, {"nan", math.NaN()}, {"inf", math.Inf(1)},
 		{"complex", complex(1, 2)}, {"string", "str"}, {"empty", ""}, {"bytes", []byte("by")}, {"rune", 'r'},
 		{"ints", []int{1, 2}}, {"anys", []any{1, "a", nil}}, {"array", [2]string{"x", "y"}}, {"nested", [][]int{{1}, {}}},
